@@ -282,6 +282,14 @@ def run_markov_builder(case, res, via_get_infected=False):
     name = 'get_infected_nodes' if via_get_infected else 'directed_percolate_network'
     if via_get_infected:
         if len(captured) != 1:
+            if not captured and gamma == 0 and tau > 0 and not px.log:
+                # no percolated graph was built and nothing was drawn: legitimate only where the answer is deterministic (infinite
+                # durations, finite delays: every arc is kept), so judge the returned set directly
+                exp = perc.reach([u for u in nodes if u not in R0], {(u, v): 0.0 for u in nodes for v in nbrs[u] if u not in R0 and v not in R0}, I0)
+                bump(res, 'get_infected_checked')
+                if set(got) != exp:
+                    viol(res, 'get_infected_nodes|out_component_minus_recovered', {'got': sorted(map(repr, got))[:8], 'expected': sorted(map(repr, exp))[:8], 'R0': [repr(x) for x in R0]})
+                return
             res['inconclusive'] = 'get_infected_nodes no longer builds its graph through directed_percolate_network'
             return
         H = captured[0]
